@@ -16,11 +16,12 @@ import (
 )
 
 // C01 — no storage reward or prover status without a valid proof of the challenged chunk.
-type C01 struct{}
+type C01 struct{ Two bool } // Two: the two-file variant (small alphabet, rewards stay with each file's own provers)
 
 var (
 	c01F1 = mkFile(seqBytes(12, 1), 4)  // 3 chunks
 	c01G  = mkFile(seqBytes(12, 99), 4) // a different file, never posted ("unknown file", and donor of foreign proofs)
+	c01F2 = mkFile(seqBytes(8, 50), 4)  // a second posted file (2 chunks, replication 1): rewards must stay with each file's own provers
 )
 
 var c01Provers = []string{"P1", "P2", "P3"}
@@ -28,11 +29,12 @@ var c01Provers = []string{"P1", "P2", "P3"}
 const day = 24 * time.Hour
 
 type c01Model struct {
-	Blocks int
-	Gas    uint64
-	Start  int64               // start height of the posted file
-	Proven map[string]bool     // account -> has ever had a valid-by-construction proof accepted (or a completed attestation)
-	Signed map[string][]string // prover with an open attestation form -> distinct named providers that signed it
+	Blocks  int
+	Gas     uint64
+	Start   int64               // start height of the posted file
+	Proven  map[string]bool     // account -> has ever had a valid-by-construction proof accepted (or a completed attestation)
+	Signed  map[string][]string // prover with an open attestation form -> distinct named providers that signed it
+	Proven2 string              // the account that has validly proven the second file ("" = none)
 }
 
 func (m c01Model) Key() []byte { return jkey(m) }
@@ -49,8 +51,13 @@ func (m c01Model) clone() c01Model {
 	return n
 }
 
-func (C01) ID() string   { return "C01" }
-func (C01) Name() string { return "C01/proofs" }
+func (C01) ID() string { return "C01" }
+func (s C01) Name() string {
+	if s.Two {
+		return "C01/two-files"
+	}
+	return "C01/proofs"
+}
 func (C01) Config() world.Config {
 	return world.Config{
 		Accounts: []string{"U", "P1", "P2", "P3", "P4"},
@@ -69,7 +76,7 @@ func mustOK(r world.TxResult, what string) {
 	}
 }
 
-func (C01) Init(env world.Env) mc.Model {
+func (s C01) Init(env world.Env) mc.Model {
 	w := env.W()
 	for i, p := range c01Provers {
 		mustOK(env.Deliver(storagetypes.NewMsgInitProvider(w.A(p).Bech, fmt.Sprintf("https://node.provider%d.com", i+1), 1_000_000_000, "kb")), "InitProvider")
@@ -78,15 +85,28 @@ func (C01) Init(env world.Env) mc.Model {
 	mustOK(env.Deliver(storagetypes.NewMsgBuyStorage(u, u, 30, 1000_000_000_000, "ujkl")), "BuyStorage")
 	start := env.Ctx().BlockHeight()
 	mustOK(env.Deliver(storagetypes.NewMsgPostFile(u, c01F1.merkle, int64(len(c01F1.data)), 0, 0, 3, "{}")), "PostFile")
+	if s.Two {
+		mustOK(env.Deliver(storagetypes.NewMsgPostFile(u, c01F2.merkle, int64(len(c01F2.data)), 0, 0, 1, "{}")), "PostFile f2")
+	}
 	return c01Model{Start: start, Proven: map[string]bool{}, Signed: map[string][]string{}}
 }
 
 var c01Kinds = []string{"valid", "otherAtChallenged", "otherOwnIndex", "broken"}
 var c01ExtraKinds = []string{"otherFile", "emptyItem", "truncated"}
 
-func (C01) Events(env world.Env, mm mc.Model) []string {
+func (s C01) Events(env world.Env, mm mc.Model) []string {
 	m := mm.(c01Model)
 	var evs []string
+	if s.Two {
+		evs = append(evs, "Proof:P1:f1:valid", "Proof:P2:f1:valid", "Proof:P3:f1:valid", "Proof:P1:f1:otherAtChallenged")
+		if m.Proven2 == "" {
+			evs = append(evs, "Proof2:P2", "Proof2:P1") // the honest join proof (chunk 0) of the second file
+		}
+		if m.Blocks < 8 {
+			evs = append(evs, "NextBlock")
+		}
+		return evs
+	}
 	for _, x := range c01Provers {
 		for _, k := range c01Kinds {
 			evs = append(evs, "Proof:"+x+":f1:"+k)
@@ -155,7 +175,9 @@ func c01Snapshot(w *world.World, ctx sdk.Context, start int64) c01Snap {
 	s := c01Snap{proofs: map[string]storagetypes.FileProof{}}
 	s.file, s.found = getFile(w, ctx, c01F1.merkle, w.A("U").Bech, start)
 	for _, p := range w.App.StorageKeeper.GetAllProofs(ctx) {
-		s.proofs[p.Prover] = p
+		if bytes.Equal(p.Merkle, c01F1.merkle) {
+			s.proofs[p.Prover] = p
+		}
 	}
 	s.dump = w.DumpStore(ctx, "storage")
 	return s
@@ -186,16 +208,57 @@ func (C01) Apply(env world.Env, mm mc.Model, ev string) mc.Step {
 		m.Gas = 0
 		st.Outcome = "block"
 		after := w.Balances(env.Ctx())
+		paid := map[string]sdk.Int{}
+		for _, x := range append(append([]string{}, c01Provers...), "P4") {
+			a := w.A(x).Bech
+			if after[a].AmountOf("ujkl").GT(before[a].AmountOf("ujkl")) {
+				paid[x] = after[a].AmountOf("ujkl").Sub(before[a].AmountOf("ujkl"))
+			}
+		}
+		// rewards stay with each file's own provers: for two paid accounts x, y the ratio of their payouts is at most
+		// (total size of the files x has ever validly proven) / (size of the smallest file y has ever validly proven)
+		sizes := func(x string) (max, min int64) {
+			if m.Proven[x] {
+				max, min = int64(len(c01F1.data)), int64(len(c01F1.data))
+			}
+			if m.Proven2 == x {
+				max += int64(len(c01F2.data))
+				min = int64(len(c01F2.data))
+			}
+			return
+		}
+		for _, x := range world.SortedKeys(paid) {
+			for _, y := range world.SortedKeys(paid) {
+				maxX, _ := sizes(x)
+				_, minY := sizes(y)
+				if x == y || maxX == 0 || minY == 0 {
+					continue
+				}
+				st.Exercised = append(st.Exercised, "two-files-paid")
+				// paid[x]/paid[y] <= maxX/minY, up to one base unit of rounding on either payout
+				if paid[x].SubRaw(1).MulRaw(minY).GT(paid[y].AddRaw(1).MulRaw(maxX)) {
+					vs = append(vs, viol("no-reward-without-valid-proof", "paid-for-a-file-never-proven",
+						"reward block at height %d paid %s %s and %s %s: %s has validly proven files of %d bytes in total, %s a file of at least %d bytes, so %s was paid for a file it never proved",
+						env.Ctx().BlockHeight(), x, paid[x], y, paid[y], x, maxX, y, minY, x))
+				}
+			}
+		}
 		for _, x := range append(append([]string{}, c01Provers...), "P4") {
 			a := w.A(x).Bech
 			if after[a].AmountOf("ujkl").GT(before[a].AmountOf("ujkl")) {
 				st.Exercised = append(st.Exercised, "reward-paid")
-				if !m.Proven[x] {
+				if !m.Proven[x] && m.Proven2 != x {
 					vs = append(vs, viol("no-reward-without-valid-proof", "paid-never-proven",
 						"%s was paid %s ujkl at the reward block of height %d but never had a valid proof accepted", x,
 						after[a].AmountOf("ujkl").Sub(before[a].AmountOf("ujkl")), env.Ctx().BlockHeight()))
 				}
 			}
+		}
+	case "Proof2":
+		item, hl := c01F2.proofFor(0)
+		if ok, _ := postProofOK(w, env.Deliver(storagetypes.NewMsgPostProof(w.A(p[1]).Bech, c01F2.merkle, u, m.Start, item, hl, 0))); ok {
+			m.Proven2 = p[1]
+			st.Outcome = "ok"
 		}
 	case "Proof":
 		x := w.A(p[1])
@@ -411,10 +474,13 @@ func c01AliasEnum() mc.Enum {
 func init() {
 	CaseReplayers["C01/index-aliasing"] = func(r *mc.Run, c string) { r.ReplayCase(c01AliasEnum(), c) }
 	regScenario(C01{})
+	regScenario(C01{Two: true})
 	Props["C01"] = Prop{Level: "model_checking", Run: func(r *mc.Run, tier string) {
 		r.Rules = append(r.Rules, "BFS from a posted 3-chunk file (replication 3; a 4th account meets it when full) over PostProof by 3 accounts x payload {valid for the challenged chunk, another chunk's proof sent with the challenged index, with its own index, broken hash list; for one account also foreign-file proof, empty item, truncated hash list}, proof for an unknown file, attestation request/sign, block-gas choice (varies the next challenge), NextBlock (1 day; reward blocks every 2nd block); payload validity is known by construction and cross-checked with the Merkle library")
 		r.Assumptions = append(r.Assumptions, "ChunkSize 4, ProofWindow 3, CheckWindow 2, attestation form size 1/min 1", "SHA-256/SHA3 collision freedom")
 		r.AddExplore(C01{}, opts(tier, 7, 12, 60, 1200, 150, 2000))
+		r.Rules = append(r.Rules, "two-file variant: a second posted file (replication 1) whose slot P1 or P2 can take; valid proofs of the first file by 3 accounts, one invalid payload, NextBlock; at every reward block the payouts of two accounts may not exceed the ratio of the sizes of the files each has ever validly proven")
+		r.AddExplore(C01{Two: true}, opts(tier, 8, 12, 40, 600, 60, 500))
 		r.Rules = append(r.Rules, "leaf-name aliasing: a 130-chunk file (chunk size 1); from 8 starting seeds the honest prover proves until the chain challenges a chunk whose index has an alias (index spelled with two more digits), then every alias payload is submitted for the challenged index and must be rejected without any change")
 		r.AddEnum(c01AliasEnum(), workers(), time.Now().Add(10*time.Minute))
 	}}
